@@ -1,5 +1,5 @@
 /-
-  Model of Product2 / Product3 (src/mul/non_labeled.rs:75-108, src/mul/labeled.rs:74-119)
+  Model of Product2 / Product3 (src/mul/non_labeled.rs:75-119, src/mul/labeled.rs:74-125)
   and MergeJointConditions2 (src/mul.rs:1013-1061).
   Joint domains are flattened row-major: cell (i,j) of an n0×n1 table is entry i*n1+j.
 -/
@@ -32,15 +32,32 @@ def outer2 {n0 n1} (v0 : Tab α n0) (v1 : Tab α n1) : Tab α (n0 * n1) :=
 def outer3 {n0 n1 n2} (v0 : Tab α n0) (v1 : Tab α n1) (v2 : Tab α n2) : Tab α (n0 * n1 * n2) :=
   Vector.ofFn fun k => let d := idx3 k; v0[d.1] * v1[d.2.1] * v2[d.2.2]
 
+/-- candidate for the joint uncertainty contributed by the cell `d = (i, j)` (src/mul/non_labeled.rs:87-91,
+    src/mul/labeled.rs:87-92; both families associate identically): `(P0 i * P1 j - b0 i * b1 j) / (a0 i * a1 j)` with
+    `P = b + a*u`, expanded in `r = b / a` so that no nearly equal quantities are subtracted (repair abca806;
+    the cancelling form is kept as `Pinned.product2RawCancel`) -/
+def prodCand2 {n0 n1} (w0 : Opinion α n0) (w1 : Opinion α n1) (d : Fin n0 × Fin n1) : α :=
+  let r0 := w0.b[d.1] / w0.a[d.1]
+  let r1 := w1.b[d.2] / w1.a[d.2]
+  w0.u * (r1 + w1.u) + r0 * w1.u
+
+/-- three factors (src/mul/non_labeled.rs:110-115, src/mul/labeled.rs:116-122) -/
+def prodCand3 {n0 n1 n2} (w0 : Opinion α n0) (w1 : Opinion α n1) (w2 : Opinion α n2)
+    (d : Fin n0 × Fin n1 × Fin n2) : α :=
+  let r0 := w0.b[d.1] / w0.a[d.1]
+  let r1 := w1.b[d.2.1] / w1.a[d.2.1]
+  let r2 := w2.b[d.2.2] / w2.a[d.2.2]
+  w0.u * (r1 + w1.u) * (r2 + w2.u) + r0 * (w1.u * (r2 + w2.u) + r1 * w2.u)
+
 /-- the part shared by both product implementations: (b, u, a) before validation / normalisation.
-    Cells of zero base rate are skipped (`filter(a > 0)`); an empty filter makes `reduce(..).unwrap()` panic in Rust,
-    the model returns NaN there (not reachable when the base rates are distributions). -/
+    Cells of zero base rate are skipped (`filter(a > 0)`, applied before any quotient `b / a` is used); an empty
+    filter makes `reduce(..).unwrap()` panic in Rust, the model returns NaN there (not reachable when the base
+    rates are distributions). -/
 def product2Raw {n0 n1} (w0 : Opinion α n0) (w1 : Opinion α n1) : Opinion α (n0 * n1) :=
   let p := outer2 w0.projection w1.projection
   let a := outer2 w0.a w1.a
-  let bb := outer2 w0.b w1.b
   let u := Tab.reduceL Scalar.min
-    (((List.finRange (n0 * n1)).filter fun k => Scalar.gt a[k] Scalar.zero).map fun k => (p[k] - bb[k]) / a[k])
+    (((List.finRange (n0 * n1)).filter fun k => Scalar.gt a[k] Scalar.zero).map fun k => prodCand2 w0 w1 (idx2 k))
     (Tab.nanOf α)
   let b : Tab α (n0 * n1) := Vector.ofFn fun k => p[k] - a[k] * u
   ⟨b, u, a⟩
@@ -49,9 +66,9 @@ def product3Raw {n0 n1 n2} (w0 : Opinion α n0) (w1 : Opinion α n1) (w2 : Opini
     Opinion α (n0 * n1 * n2) :=
   let p := outer3 w0.projection w1.projection w2.projection
   let a := outer3 w0.a w1.a w2.a
-  let bb := outer3 w0.b w1.b w2.b
   let u := Tab.reduceL Scalar.min
-    (((List.finRange (n0 * n1 * n2)).filter fun k => Scalar.gt a[k] Scalar.zero).map fun k => (p[k] - bb[k]) / a[k])
+    (((List.finRange (n0 * n1 * n2)).filter fun k => Scalar.gt a[k] Scalar.zero).map fun k =>
+      prodCand3 w0 w1 w2 (idx3 k))
     (Tab.nanOf α)
   let b : Tab α (n0 * n1 * n2) := Vector.ofFn fun k => p[k] - a[k] * u
   ⟨b, u, a⟩
